@@ -144,6 +144,127 @@ fn check_fault_run(run: &Run, sc: &Scenario, fr: &FaultRun, before: &BTreeMap<St
     true
 }
 
+/// `cv c04-child <arch> <src> <hunk> <block> <cap> <limit>`: one backup with the kernel refusing
+/// to let any file grow beyond <limit> bytes (RLIMIT_FSIZE, SIGXFSZ ignored): every larger write
+/// to the archive fails part-way inside the real local transport (EFBIG), which an interceptor
+/// that replaces the operation cannot produce.
+pub fn child(args: &[String]) -> i32 {
+    let arch = std::path::PathBuf::from(&args[0]);
+    let src = std::path::PathBuf::from(&args[1]);
+    let o = crate::cs::Opts { hunk: args[2].parse().unwrap(), block: args[3].parse().unwrap(), cap: args[4].parse().unwrap() };
+    let limit: u64 = args[5].parse().unwrap();
+    unsafe {
+        libc::signal(libc::SIGXFSZ, libc::SIG_IGN);
+        let r = libc::rlimit { rlim_cur: limit, rlim_max: limit };
+        if libc::setrlimit(libc::RLIMIT_FSIZE, &r) != 0 {
+            println!("RESULT {}", json!({"harness_error": "setrlimit failed"}));
+            return 3;
+        }
+    }
+    let out = crate::cs::backup(crate::cs::local(&arch), &src, o, &[], None);
+    println!(
+        "RESULT {}",
+        json!({"ok": out.ok(), "panic": out.panic, "err": match &out.result { Some(Err(e)) => Some(e.clone()), _ => None },
+            "errors": out.errors.len(), "stats_errors": out.value().map(|s| s.errors)})
+    );
+    0
+}
+
+/// Real partial writes: the backup under test runs in a child process under a file-size limit,
+/// then a fault-free backup of the same source follows. Same oracle as for injected faults.
+fn partial_write_runs(run: &Run, sc: &Scenario, case: u64, before: &BTreeMap<String, FsItem>) {
+    let exe = std::env::current_exe().expect("exe");
+    let only = run.replay.as_ref().and_then(|r| r.get("partial_write_limit")).and_then(|l| l.as_u64());
+    // a private copy of the source with two incompressible files of several 1000-byte blocks,
+    // backed up with max_block_size 1000: under limits of a few hundred bytes the heads, tails
+    // and hunks still fit while every such block is cut off part-way
+    let src2 = sc.scratch().fresh("src-partial");
+    crate::tree::sync_to_disk(None, &sc.snap, &src2).expect("materialise copy of the source");
+    {
+        let mut rng = crate::rng::Rng::for_case(run.seed, case, 41);
+        std::fs::write(src2.join("zlarge1"), rng.bytes(2500)).unwrap();
+        std::fs::write(src2.join("zlarge2"), rng.bytes(1700)).unwrap();
+    }
+    let snap2 = crate::tree::snapshot(&src2).expect("snapshot");
+    let popts = crate::cs::Opts { hunk: sc.opts.hunk, block: 1000, cap: sc.opts.cap };
+    for limit in [16u64, 80, 150, 400, 700] {
+        if only.is_some() && only != Some(limit) {
+            continue;
+        }
+        let arch = sc.work_copy();
+        let outp = std::process::Command::new(&exe)
+            .arg("c04-child")
+            .arg(&arch)
+            .arg(&src2)
+            .arg(popts.hunk.to_string())
+            .arg(popts.block.to_string())
+            .arg(popts.cap.to_string())
+            .arg(limit.to_string())
+            .output()
+            .expect("spawn child");
+        let stdout = String::from_utf8_lossy(&outp.stdout);
+        let rep: Option<Value> = stdout.lines().find_map(|l| l.strip_prefix("RESULT ")).and_then(|r| serde_json::from_str(r).ok());
+        run.eval();
+        run.count("partial_write_runs", 1);
+        let replay = json!({"case": case, "partial_write_limit": limit, "scenario": sc.desc});
+        let viol = |phase: &str, class: &str, detail: String| {
+            run.violation(format!("{phase}:{class}@partial-write"), format!("{} file-size limit {limit}: {detail}", sc.desc), replay.clone());
+        };
+        let Some(rep) = rep else {
+            viol("backup", "child-crashed", format!("status {:?}, stderr {}", outp.status, String::from_utf8_lossy(&outp.stderr).lines().last().unwrap_or("")));
+            crate::scratch::rm(&arch);
+            continue;
+        };
+        if let Some(p) = rep["panic"].as_str() {
+            viol("backup-panic", &panic_site(p), p.to_string());
+            crate::scratch::rm(&arch);
+            continue;
+        }
+        if rep["errors"].as_u64().unwrap_or(0) > 0 || rep["stats_errors"].as_u64().unwrap_or(0) > 0 || !rep["ok"].as_bool().unwrap_or(false) {
+            run.count("partial_write_runs_with_errors", 1);
+        }
+        // earlier data untouched
+        let after = fmt06::dir_bytes(&arch);
+        let mut bad = None;
+        for (p, item) in before {
+            if after.get(p) != Some(item) {
+                bad = Some(p.clone());
+                break;
+            }
+        }
+        if let Some(p) = bad {
+            viol("existing-file", "altered-or-removed", p);
+            crate::scratch::rm(&arch);
+            continue;
+        }
+        // a later, fault-free backup of the same source must be a true success
+        let f = crate::cs::backup(crate::cs::local(&arch), &src2, popts, &[], None);
+        let raw = fmt06::read_archive(&arch, true);
+        let newest = raw.bands.keys().max().copied().unwrap_or(0);
+        let mut sources = sc.prior_sources.clone();
+        for id in raw.bands.keys() {
+            if !sources.contains_key(id) {
+                sources.insert(*id, snap2.clone());
+            }
+        }
+        if let Err((class, detail)) = check_recorded_content(&raw, &sources) {
+            viol("recorded-content-after-followup", &class, detail);
+            crate::scratch::rm(&arch);
+            continue;
+        }
+        let reported = !f.ok() || !f.errors.is_empty() || f.value().map(|s| s.errors != 0).unwrap_or(true);
+        if !reported {
+            if let Err(m) = restore_and_compare(&arch, Some(newest), &snap2, sc.scratch(), &CmpOpts::default()) {
+                viol("false-success-of-later-backup", &m.class, m.detail);
+                crate::scratch::rm(&arch);
+                continue;
+            }
+            run.count("partial_write_followups_exact", 1);
+        }
+        crate::scratch::rm(&arch);
+    }
+}
+
 fn one_scenario(run: &Run, case: u64) {
     let sc = scenario::build(run.seed, case, "c04");
     let n = sc.trace.len();
@@ -155,6 +276,10 @@ fn one_scenario(run: &Run, case: u64) {
     let only_k = r.as_ref().and_then(|r| r.get("k")).and_then(|k| k.as_u64()).map(|k| k as usize);
     let only_kind = r.as_ref().and_then(|r| r.get("kind")).and_then(|k| k.as_str()).map(String::from);
     let only_random = r.as_ref().and_then(|r| r.get("random_run")).and_then(|k| k.as_u64());
+    if r.as_ref().and_then(|r| r.get("partial_write_limit")).is_some() {
+        partial_write_runs(run, &sc, case, &before);
+        return;
+    }
     if only_random.is_none() {
         for k in 0..n {
             if only_k.is_some() && only_k != Some(k) {
@@ -183,6 +308,9 @@ fn one_scenario(run: &Run, case: u64) {
             }
         }
     }
+    if only_k.is_none() && only_random.is_none() {
+        partial_write_runs(run, &sc, case, &before);
+    }
     // random multi-fault sequences
     let n_random = run.tier.pick(40u64, 300);
     for i in 0..n_random {
@@ -210,9 +338,9 @@ pub fn run(tier: Tier, replay: Option<Value>) -> i32 {
     let n = tier.pick(8, 300);
     run.par_cases(n, super::threads(), |case| one_scenario(&run, case));
     run.finish(
-        "scenarios as in C03 (small blocks so combined-block flushes happen mid-run); for EVERY operation k of the backup's storage trace and each kind in {not-found, already-exists, permission-denied, other} the operation is made to fail (not executed, error returned); plus random multi-fault runs with p in {0.02, 0.1, 0.3}. After each run: no panic and no unbounded storage loop; every file that existed before is byte-identical; earlier versions restore exactly; every file entry of every hunk of every band, decoded independently, resolves through the raw blocks to exactly the bytes its path had in that band's source; a run that reports full success (Ok, stats.errors==0, no monitor error) has a tail and restores the source exactly. Distinct = (scenario, k, path, kind) resp. the injected set.",
+        "scenarios as in C03 (small blocks so combined-block flushes happen mid-run); for EVERY operation k of the backup's storage trace and each kind in {not-found, already-exists, permission-denied, other} the operation is made to fail (not executed, error returned); plus random multi-fault runs with p in {0.02, 0.1, 0.3}; plus REAL partial writes: the backup runs in a child process under RLIMIT_FSIZE in {16, 80, 150, 400, 700} bytes, on a copy of the source that also holds two incompressible multi-block files (max_block_size 1000), so that heads, tails and hunks fit while blocks are cut off (every larger archive write fails part-way inside the real local transport), followed by a fault-free backup of the same source that must then be a true success. After each run: no panic and no unbounded storage loop; every file that existed before is byte-identical; earlier versions restore exactly; every file entry of every hunk of every band, decoded independently, resolves through the raw blocks to exactly the bytes its path had in that band's source; a run that reports full success (Ok, stats.errors==0, no monitor error) has a tail and restores the source exactly. Distinct = (scenario, k, path, kind) resp. the injected set.",
         &["an injected fault returns an error without executing the operation", "E2 reader trusted (snap, serde_json, blake2-rfc)"],
         Some(true),
-        &[("single_faults", 100), ("fault_at_write", 20), ("file_entries_resolved_and_compared", 200), ("runs_reporting_an_error", 10), ("runs_reporting_full_success", 1), ("random_multi_fault_runs", 10)],
+        &[("single_faults", 100), ("fault_at_write", 20), ("file_entries_resolved_and_compared", 200), ("runs_reporting_an_error", 10), ("runs_reporting_full_success", 1), ("random_multi_fault_runs", 10), ("partial_write_runs", 8), ("partial_write_runs_with_errors", 2), ("partial_write_followups_exact", 2)],
     )
 }
